@@ -48,6 +48,7 @@ type FuncAn struct {
 	rems        []remRec // x % k for constant k: x == k*q + r
 	projAtom    map[*Atom]projCoef
 	capMemo     map[ssa.Value]Lin
+	memPhis     map[*ssa.BasicBlock][]memPhi
 }
 
 type remRec struct {
